@@ -59,6 +59,17 @@ func TestC10_Tracker(t *testing.T) {
 		var hist []string
 		classes := map[string]bool{}
 		nt := false
+		m := c10TryRealMap(unit)
+		if m != nil {
+			defer m.Close()
+			if rapid.Bool().Draw(t, "per_element_fallback") {
+				c10ForceBatchMode(true)
+				classes["real_map_per_element_fallback"] = true
+			} else {
+				c10ForceBatchMode(false)
+				classes["real_map_kernel_batch_api"] = true
+			}
+		}
 
 		apply := func(owner string, bmName string, bm bpfDomainRouting, ips map[c10Key]struct{}, op string) {
 			before := make(map[string]c10Owner, len(model))
@@ -73,8 +84,8 @@ func TestC10_Tracker(t *testing.T) {
 				}
 			}
 			hist = append(hist, fmt.Sprintf("%s(%s,%s,%s)", op, owner, bmName, c10SetString(ips)))
-			if err := tr.syncOwner(nil, owner, snap); err != nil {
-				t.Fatalf("syncOwner(%q) failed with a nil map: %v", owner, err)
+			if err := tr.syncOwner(m, owner, snap); err != nil {
+				t.Fatalf("syncOwner(%q) failed: %v", owner, err)
 			}
 			if len(ips) == 0 {
 				delete(model, owner)
@@ -191,7 +202,7 @@ func TestC10_Tracker(t *testing.T) {
 			},
 			"empty_owner_key": func(t *rapid.T) {
 				before := shadow.snapshot()
-				if err := tr.syncOwner(nil, "", domainRoutingOwnerSnapshot{bitmap: c10Bits(0), ips: map[c10Key]struct{}{six[0]: {}}}); err == nil {
+				if err := tr.syncOwner(m, "", domainRoutingOwnerSnapshot{bitmap: c10Bits(0), ips: map[c10Key]struct{}{six[0]: {}}}); err == nil {
 					t.Fatalf("syncOwner with an empty owner key did not fail")
 				}
 				after := shadow.snapshot()
@@ -206,6 +217,15 @@ func TestC10_Tracker(t *testing.T) {
 				}
 				if d := c10Compare(shadow.snapshot(), model); d != "" {
 					t.Fatalf("table does not mirror the owners after %d steps\nhistory: %v\nlive owners:\n%s%s", len(hist), hist, c10OwnersString(model), d)
+				}
+				if m != nil {
+					real, err := c10DumpReal(m)
+					if err != nil {
+						t.Fatalf("harness: dump of the real map: %v", err)
+					}
+					if d := c10Compare(real, model); d != "" {
+						t.Fatalf("the kernel map does not mirror the owners after %d steps\nhistory: %v\nlive owners:\n%s%s", len(hist), hist, c10OwnersString(model), d)
+					}
 				}
 			},
 		})
